@@ -7,7 +7,7 @@ A2 == {32, Ord["a"], Ord["i"], Ord["n"], Ord["o"], Ord["t"], Ord["("], Ord[")"],
 A3 == {TAB, CR, LF, Ord["t"], Ord["r"], Ord["u"], Ord["e"], Ord["T"], Ord["_"], Ord["."], 8364, Ord["["], Ord["&"], Ord["|"]}
 A4 == {32, Ord["h"], Ord["i"], Ord["+"], Ord["-"], Ord["1"], Ord["("], Ord["x"], Ord["="], LF, Ord["'"], 233, Ord["?"], Ord[":"]}
 \* characters Unicode calls white space but the engine does not (NBSP, VT, FF, NEL, ideographic space): ordinary name characters here
-A5 == {32, TAB, 160, 11, 12, 133, 12288, Ord["f"], Ord["("], Ord[")"], Ord["1"], Ord["+"], Ord["'"], Ord["."]}
+A5 == {32, Ord["\""], 160, 11, 12, 133, 12288, Ord["f"], Ord["("], Ord[")"], Ord["1"], Ord["+"], Ord["'"], Ord["."]}
 AllAlpha == A1 \cup A2 \cup A3 \cup A4 \cup A5
 \* operator sets
 OpsBuiltin == BuiltinOps
